@@ -21,8 +21,13 @@ from dataclasses import dataclass, field
 from core import Case
 
 PID = "C08"
-LEAN_MODULES = ["KrroodVerif.Props.C08"]
+LEAN_MODULES = ["KrroodVerif.Props.C08", "KrroodVerif.Props.C08Build"]
 THEOREMS = [
+    "KrroodVerif.Rdr.C08_build",
+    "KrroodVerif.Rdr.C08_build_layout",
+    "KrroodVerif.Rdr.C08_end_to_end",
+    "KrroodVerif.Rdr.C08_build_authored",
+    "KrroodVerif.Rdr.C08_end_to_end_authored_full",
     "KrroodVerif.Rdr.C08_eval",
     "KrroodVerif.Rdr.C08_eval_partial",
     "KrroodVerif.Rdr.C08_today_end_to_end",
